@@ -225,10 +225,16 @@ class Run:
         status = 0
         lines = []
         replay_dir = VERIF / "replays" / self.prop
+        if replay_dir.exists():
+            for old in replay_dir.glob("*.json"):
+                old.unlink()
         # confirm and report
         nrep = 0
+        by_key: dict = {}
         for key, vs, kf in listed:
-            lines.append(f"KNOWN-FINDING: property={self.prop} {kf['key']}: {kf['what']} ({len(vs)} cases in this run)")
+            by_key.setdefault(kf["key"], [kf, 0])[1] += len(vs)
+        for k, (kf, ncases) in by_key.items():
+            lines.append(f"KNOWN-FINDING: property={self.prop} {k}: {kf['what']} ({ncases} cases in this run)")
         for key, vs, _ in unlisted:
             nrep += 1
             replay_dir.mkdir(parents=True, exist_ok=True)
